@@ -989,6 +989,93 @@ fn gen_shallow_once(rng: &mut Rng, max_j: i64) -> Case {
     }
 }
 
+/// D7: a "needle" - a valid triangle whose two long edges leave one vertex in almost the same direction (integer
+/// coordinates up to 2^27, exact doubled area 1..3, so that naive floating-point cross products of the two directions
+/// cancel while the exact orientation does not) - plus ordinary small shapes of both operands inside the needle's
+/// bounding box that do not touch the needle. Nothing crosses the needle (crossings near its tip would fall within
+/// rounding distance of both long edges, which is the recorded non-robustness N1), so all arithmetic is exact; what is
+/// exercised is the ordering of the two nearly collinear edges at the tip and of everything that is compared with them.
+pub fn gen_needle(rng: &mut Rng) -> Case {
+    let a = (2.0f64).powi(rng.range(10, 27) as i32) + rng.range(-3, 3) as f64;
+    let k = rng.range(1, 3) as f64;
+    // tip at the origin, long edges to (a, a-k) and (a+1, a-k+1): doubled area = a*(a-k+1) - (a-k)*(a+1) = k
+    let needle: Vec<Pt> = vec![(0.0, 0.0), (a, a - k), (a + 1.0, a - k + 1.0)];
+    let sym = rng.below(8);
+    let (tx, ty) = (rng.range(-1000, 1000) as f64, rng.range(-1000, 1000) as f64);
+    let map = |p: Pt| -> Pt {
+        let (mut x, mut y) = p;
+        if sym & 1 != 0 {
+            x = -x;
+        }
+        if sym & 2 != 0 {
+            y = -y;
+        }
+        if sym & 4 != 0 {
+            std::mem::swap(&mut x, &mut y);
+        }
+        (x + tx, y + ty)
+    };
+    let fix = |r: &Vec<Pt>| -> Ring {
+        let mut v: Ring = r.iter().map(|p| map(*p)).collect();
+        if ring_area2(&v) < 0.0 {
+            v.reverse();
+        }
+        // any vertex may come first
+        let first = v[0];
+        v.push(first);
+        v
+    };
+    // small shapes at a distance from the needle line y = x (before the symmetry): centre (cx, cx + off) with |off| >= 64
+    let small = |rng: &mut Rng| -> Vec<Pt> {
+        let cx = (rng.unit() * a).floor();
+        let off = rng.range(64, 4096) as f64 * if rng.below(2) == 0 { 1.0 } else { -1.0 };
+        let (cy, h) = (cx + off, rng.range(1, 24) as f64);
+        if rng.below(2) == 0 {
+            vec![(cx - h, cy - h), (cx + h, cy - h), (cx + h, cy + h), (cx - h, cy + h)]
+        } else {
+            vec![(cx - h, cy - h), (cx + h, cy), (cx, cy + h)]
+        }
+    };
+    let mut a_parts: MP = vec![vec![fix(&needle)]];
+    let mut b_parts: MP = Vec::new();
+    let nb = rng.range(1, 3);
+    let mut placed: Vec<(f64, f64, f64)> = Vec::new();
+    let place = |rng: &mut Rng, into: &mut MP, placed: &mut Vec<(f64, f64, f64)>| {
+        for _ in 0..8 {
+            let s = small(rng);
+            let (cx, cy) = (s.iter().map(|p| p.0).sum::<f64>() / s.len() as f64, s.iter().map(|p| p.1).sum::<f64>() / s.len() as f64);
+            if placed.iter().all(|q| (q.0 - cx).abs() > 64.0 || (q.1 - cy).abs() > 64.0) {
+                placed.push((cx, cy, 0.0));
+                into.push(vec![fix(&s)]);
+                return;
+            }
+        }
+    };
+    for _ in 0..nb {
+        place(rng, &mut b_parts, &mut placed);
+    }
+    if rng.below(2) == 0 {
+        place(rng, &mut a_parts, &mut placed);
+    }
+    if b_parts.is_empty() {
+        b_parts.push(vec![fix(&vec![(8.0, 200.0), (12.0, 200.0), (12.0, 204.0), (8.0, 204.0)])]);
+    }
+    let swap = rng.below(2) == 0;
+    let (pa, pb) = if swap { (b_parts, a_parts) } else { (a_parts, b_parts) };
+    Case {
+        family: "D7-needle",
+        desc: format!("needle of length ~{} with doubled area {} (sym {}) and small shapes beside it", a, k, sym),
+        a: pa,
+        b: pb,
+        exact: true,
+        exact_f32: false,
+        integer: true,
+        f32_ok: false,
+        self_crossing: false,
+        faces: vec![],
+    }
+}
+
 /// The whole case multiplied by 2^k (exact: only exponents change). Exact families stay exact; the integer reference and
 /// the f32 run are switched off (f32 products would leave the exponent range).
 pub fn scaled_by_pow2(mut c: Case, k: i32) -> Case {
@@ -1016,7 +1103,8 @@ pub fn gen_mixed(rng: &mut Rng, size: usize, rejected: &mut u64) -> Case {
 /// oracles are scale-free (direct region / structure / provenance / subdivision / classification checks).
 pub fn gen_mixed_scaled(rng: &mut Rng, size: usize, rejected: &mut u64) -> Case {
     let c = gen_mixed_unscaled(rng, size, rejected);
-    if rng.below(12) == 0 {
+    // (needles stay at integer coordinates: their areas are only exact in integer arithmetic)
+    if rng.below(12) == 0 && c.family != "D7-needle" {
         let k = rng.range(40, 200) as i32;
         let k = if rng.below(3) == 0 { k } else { -k };
         scaled_by_pow2(c, k)
@@ -1032,7 +1120,8 @@ fn gen_mixed_unscaled(rng: &mut Rng, size: usize, rejected: &mut u64) -> Case {
         1 => (7, 4, 5, 12),
         _ => (12, 7, 8, 28),
     };
-    match rng.below(18) {
+    match rng.below(19) {
+        18 => gen_needle(rng),
         16 => gen_shallow(rng),
         17 => {
             let f = rng.below(2) == 0;
